@@ -51,8 +51,8 @@ def clock_choices(quick):
     for (h, mi) in mins:
         seen = set()
         for lab, t, C in G.clock_forms(h, mi):
-            if lab == "clock:h in the POD":
-                continue          # recorded finding of C06 (bare hour + part of day)
+            if lab in ("clock:h in the POD", "clock:small hour at night", "clock:hour one at noon"):
+                continue          # recorded findings of C06 (the clock part alone is already wrong there)
             if lab == "clock:HHMM" and 1900 <= h * 100 + mi <= 2029:
                 continue          # bare 4 digits that are also a year of the vocabulary (2020, 2015): next to a day that is genuinely a year
                                   # as well (the military-time heuristic of C05's exclusion)
